@@ -107,6 +107,7 @@ fn run(v: serde_json::Value) -> Result<Report, String> {
         "level_history" => level_history::run(&v, &mut rep)?,
         "queue_history" => queue_history::run(&v, &mut rep)?,
         "amend_race" => amend_race::run(&v, &mut rep)?,
+        "amend_race_sweep" => amend_race::sweep(&v, &mut rep)?,
         "search" => search::run(&v, &mut rep)?,
         "package_faults" => package_faults::run(&v, &mut rep)?,
         "uuid_contract" => uuid_contract::run(&v, &mut rep)?,
